@@ -236,37 +236,13 @@ fn mark_csr_segment_pages(
     meta_page_id: PageId,
     reachable: &mut BTreeSet<PageId>,
 ) -> Result<()> {
-    const META_MAGIC: [u8; 8] = *b"NDBCSRv1";
-
+    // The meta page layout (NDBCSRv2: forward and reverse index page lists) is owned by csr.rs.
     let meta = pager.read_page(meta_page_id)?;
-    if meta[0..8] != META_MAGIC {
-        return Err(Error::WalProtocol("invalid csr meta magic"));
-    }
-
-    let offsets_page_count = u32::from_le_bytes(meta[40..44].try_into().unwrap()) as usize;
-    let edges_page_count = u32::from_le_bytes(meta[44..48].try_into().unwrap()) as usize;
-
-    let needed = 48usize + (offsets_page_count + edges_page_count) * 8;
-    if needed > PAGE_SIZE {
-        return Err(Error::WalProtocol("csr meta page overflow"));
-    }
-
-    let mut off = 48usize;
-    for _ in 0..offsets_page_count {
-        let id = u64::from_le_bytes(meta[off..off + 8].try_into().unwrap());
-        off += 8;
+    for id in crate::csr::meta_page_ids(&meta)? {
         if id != 0 {
             reachable.insert(PageId::new(id));
         }
     }
-    for _ in 0..edges_page_count {
-        let id = u64::from_le_bytes(meta[off..off + 8].try_into().unwrap());
-        off += 8;
-        if id != 0 {
-            reachable.insert(PageId::new(id));
-        }
-    }
-
     Ok(())
 }
 
@@ -315,5 +291,33 @@ mod tests {
         let mut pager = Pager::open(&ndb).unwrap();
         let pid = pager.allocate_page().unwrap();
         assert_eq!(pid.as_u64(), orphan_blob_id);
+    }
+
+    #[test]
+    fn vacuum_keeps_compacted_segments_in_both_directions() {
+        use crate::engine::GraphEngine;
+
+        let dir = tempdir().unwrap();
+        let ndb = dir.path().join("graph.ndb");
+        let wal = dir.path().join("graph.wal");
+
+        {
+            let engine = GraphEngine::open(&ndb, &wal).unwrap();
+            let mut tx = engine.begin_write();
+            let a = tx.create_node(10, 1).unwrap();
+            let b = tx.create_node(20, 1).unwrap();
+            tx.create_edge(a, 7, b);
+            tx.commit().unwrap();
+            engine.compact().unwrap();
+        }
+
+        vacuum_in_place(&ndb, &wal).unwrap();
+
+        let engine = GraphEngine::open(&ndb, &wal).unwrap();
+        let snap = engine.begin_read();
+        let a = engine.lookup_internal_id(10).unwrap();
+        let b = engine.lookup_internal_id(20).unwrap();
+        assert_eq!(snap.neighbors(a, Some(7)).count(), 1);
+        assert_eq!(snap.incoming_neighbors(b, Some(7)).count(), 1);
     }
 }
